@@ -111,11 +111,11 @@ def _unwrap_stream(  # noqa: PLR0911  # TODO: cleanup the return value of this.
     """Get a stream URI from a playlist URI, ``uri``.
 
     Unwraps nested playlists until something that's not a playlist is found or
-    the ``timeout`` is reached.
+    the ``timeout`` (in milliseconds) is reached.
     """
     original_uri = uri
     seen_uris = set()
-    deadline = time.time() + timeout
+    deadline = time.time() + timeout / 1000
 
     while time.time() < deadline:
         if uri in seen_uris:
@@ -130,7 +130,7 @@ def _unwrap_stream(  # noqa: PLR0911  # TODO: cleanup the return value of this.
         logger.debug("Unwrapping stream from URI: %s", uri)
 
         try:
-            scan_timeout = deadline - time.time()
+            scan_timeout = (deadline - time.time()) * 1000
             if scan_timeout < 0:
                 logger.info(
                     "Unwrapping stream from URI (%s) failed: timed out in %sms",
@@ -161,7 +161,7 @@ def _unwrap_stream(  # noqa: PLR0911  # TODO: cleanup the return value of this.
                 timeout,
             )
             return None, None
-        content = http.download(requests_session, uri, timeout=download_timeout / 1000)
+        content = http.download(requests_session, uri, timeout=download_timeout)
 
         if content is None:
             logger.info(
